@@ -196,3 +196,5 @@ def build_qratio(sc):
             "fidelity": {"unit": "qratio", "rule": "R7: let-statement sliced into a function of its free locals; arm tokens identical",
                          "condition": st["cond"]},
             "assumptions": []}
+static_unit("distance_laws", ["C08"], "distance_laws.rs", ["lemma_total_laws", "lemma_clear_checksum", "lemma_body_sum", "lemma_max_attained"],
+            "hash::FuzzyHash::{compare_with_config, max_distance, clear_checksum} (laws over the part contracts)")
